@@ -178,6 +178,16 @@ def run(ctx) -> None:
     check_restore_in_finally(ctx)
     ctx.rule("C13.fresh", "T6: reads of solver results are dominated by a solve made in the same call (repeatability)", floor=15)
     check_fresh(ctx)
+    # the analyses clean up through `with model:`; when they are called inside a user's context their undo entries
+    # must not leak into it: the replay is isolated (evaluated) or every undo callable is inert (shared with C03)
+    from . import c03
+
+    ctx.rule("C03.stack", "entering/leaving a context pushes/pops exactly one history and replays it in isolation (shared with C03)", floor=15)
+    ctx.rule("C03.inert", "T3: registered undo callables register nothing into an enclosing (the user's) context (shared with C03)", floor=40)
+    c03.check_stack(ctx)
+    c03.check_inert(ctx, c03.all_registrations(ctx))
+    ctx.rule("C03.exact", "set_objective: replacement is atomic and always registers its reset inside a context (shared with C03)", floor=2)
+    c03.check_objective_atomic(ctx)
 
 
 
